@@ -86,3 +86,120 @@ def extract (d : D) (id : Nat) : Option (List Nat) :=
   | none => none
 
 end CSD.RPDAC
+
+namespace CSD.RPDAC
+open CSD.RePair
+
+/-! ### prefix search -/
+
+/-- `str[*pos] == '\0'`: the pattern is exhausted. -/
+def atEnd (buf : List Nat) (pos : Nat) : Option Bool :=
+  match buf[pos]? with
+  | none => none
+  | some c => some (c = 0)
+
+/-- `expandRuleAndComparePrefixDAC(rule, str, &pos)`: as `cmpRule`, but between the two sides the
+routine returns as soon as the pattern is exhausted. -/
+def cmpRuleP (g : Grammar) (buf : List Nat) : Nat → Nat → Nat → Option (Int × Nat)
+  | 0, _, _ => none
+  | fuel + 1, rule, pos =>
+    match g.rules[rule]? with
+    | none => none
+    | some (l, r) =>
+      let side (s p : Nat) : Option (Int × Nat) :=
+        if s ≥ g.terminals then cmpRuleP g buf fuel (s - g.terminals) p else cmpTerm buf s p
+      match side l pos with
+      | none => none
+      | some (c, p) =>
+        if c ≠ 0 then some (c, p) else
+        match atEnd buf p with
+        | none => none
+        | some true => some (0, p)
+        | some false => side r p
+
+/-- The loop of `extractPrefixAndCompareDAC`: after every symbol, stop with 0 when the pattern is
+exhausted. The last component tells whether it stopped that way. -/
+def cmpSymsP (g : Grammar) (buf : List Nat) : List Nat → Nat → Option (Int × Nat × Bool)
+  | [], pos => some (0, pos, false)
+  | s :: rest, pos =>
+    let r := if s ≥ g.terminals then cmpRuleP g buf (g.rules.length + 1) (s - g.terminals) pos else cmpTerm buf s pos
+    match r with
+    | none => none
+    | some (c, p) =>
+      if c ≠ 0 then some (c, p, false) else
+      match atEnd buf p with
+      | none => none
+      | some true => some (0, p, true)
+      | some false => cmpSymsP g buf rest p
+
+/-- `extractPrefixAndCompareDAC(id, prefix, prefixLen)`. -/
+def comparePrefixDAC (g : Grammar) (syms : List Nat) (p : List Nat) : Option Int :=
+  let buf := p ++ [0]
+  match cmpSymsP g buf syms 0 with
+  | none => none
+  | some (c, pos, stopped) =>
+    if c ≠ 0 then some c
+    else if stopped then some 0
+    else if pos = p.length then some 0
+    else match buf[pos]? with
+      | some b => some (-(b : Int))
+      | none => none
+
+/-- First loop of `locatePrefix`: any ID whose string has the prefix (`some (center, left, right)`),
+or `none` inside the outer `some` when there is none. -/
+def findAny (cmp : Nat → Option Int) : Nat → Nat → Nat → Option (Option (Nat × Nat × Nat))
+  | 0, _, _ => none
+  | fuel + 1, left, right =>
+    if left ≤ right then
+      let center := (left + right) / 2
+      match cmp center with
+      | none => none
+      | some c =>
+        if c > 0 then findAny cmp fuel left (center - 1)
+        else if c < 0 then findAny cmp fuel (center + 1) right
+        else some (some (center, left, right))
+    else some none
+
+/-- Left boundary: `while (ll <= lr)`; returns the final `lr`. -/
+def leftLoop (cmp : Nat → Option Int) : Nat → Nat → Nat → Option Nat
+  | 0, _, _ => none
+  | fuel + 1, ll, lr =>
+    if ll ≤ lr then
+      let lc := (ll + lr) / 2
+      match cmp lc with
+      | none => none
+      | some c => if c = 0 then leftLoop cmp fuel ll (lc - 1) else leftLoop cmp fuel (lc + 1) lr
+    else some lr
+
+/-- Right boundary: `while (rl < rr - 1)`; returns the final `rl`. -/
+def rightLoop (cmp : Nat → Option Int) : Nat → Nat → Nat → Option Nat
+  | 0, _, _ => none
+  | fuel + 1, rl, rr =>
+    if rl < rr - 1 then
+      let rc := (rl + rr) / 2
+      match cmp rc with
+      | none => none
+      | some c => if c = 0 then rightLoop cmp fuel rc rr else rightLoop cmp fuel rl rc
+    else some rl
+
+/-- `StringDictionaryRPDAC::locatePrefix`: the ID range `(left, right)`, `(0, 0)` for no match. -/
+def locatePrefix (d : D) (p : List Nat) : Option (Nat × Nat) :=
+  let n := d.seqs.length
+  let cmp : Nat → Option Int := fun id => match d.seqs[id - 1]? with
+    | some syms => comparePrefixDAC d.g syms p
+    | none => none
+  match findAny cmp (n + 1) 1 n with
+  | none => none
+  | some none => some (0, 0)
+  | some (some (center, left, right)) =>
+    let l := if center > 1 then
+        match leftLoop cmp (n + 1) left (center - 1) with
+        | none => none
+        | some lr => some (if lr > 0 then lr + 1 else 1)
+      else some center
+    let r := if center < n then rightLoop cmp (n + 2) center (right + 1) else some center
+    match l, r with
+    | some l, some r => some (l, r)
+    | _, _ => none
+
+end CSD.RPDAC
